@@ -42,7 +42,8 @@ TABLE = [
     (C("FKF", "MARG"), {}, (0, 0, 1), (1 / S5, 0, 2 / S5), "B", 400, 1e-3, "own-init"),
     (C("UKF", "IMU"), {}, (0, 0, 1), None, "B", 3000, 2e-2, "batch"),
 ]
-TRUTHS = [(3, 1, -2, 1), (1, 1, 0, 0), (2, -1, 1, 3), (1, 0, 0, 2), (1, 2, -3, 1), (0, 1, 1, 1)]
+# (3, 3, 1, -1): the sensor on its side (roll exactly 90 degrees: the accelerometer reads exactly 0 on its z axis) and pitched by 36.87 degrees
+TRUTHS = [(3, 1, -2, 1), (3, 3, 1, -1), (1, 1, 0, 0), (2, -1, 1, 3), (1, 0, 0, 2), (1, 2, -3, 1), (0, 1, 1, 1)]
 AXES = [(1, 0, 0), (0, 0, 1), (1, -2, 2)]
 # half-angle pairs of the initial error: 0, 30, 90, 150, 175 degrees
 ERRS = {0: (1.0, 0.0), 30: (math.cos(math.radians(15)), math.sin(math.radians(15))), 90: (math.cos(math.pi / 4), math.sin(math.pi / 4)),
@@ -161,6 +162,16 @@ def run(chk):
                         continue      # the slowest configurations: one truth, 0 and 175 degrees in the quick tier
                     jobs.append((ti, u, AXES[(ai + ui) % len(AXES)] if quick else ax, deg, chk.seed,
                                  None if ui % 2 == 0 else (ti + ui + ai) % 3))
+            if quick and TABLE[ti][5] <= 25000:
+                # far starts about the other error axes as well (a wrong term of a Jacobian only bites in some directions)
+                for ax in AXES:
+                    for deg in (150, 175):
+                        if (ti, u, ax, deg) not in [(j[0], j[1], j[2], j[3]) for j in jobs]:
+                            jobs.append((ti, u, ax, deg, chk.seed, None))
+        if quick and TABLE[ti][5] <= 25000 and TABLE[ti][3] is not None:
+            # a level sensor heading far from North, started far away: the magnetometer rows of a Jacobian matter most there
+            for deg in (150, 175):
+                jobs.append((ti, (1, 0, 0, 2), AXES[0], deg, chk.seed, None))
     jobs.sort(key=lambda j: -TABLE[j[0]][5])
     import multiprocessing as mp
     with mp.get_context("fork").Pool(16) as pool:
